@@ -169,3 +169,57 @@ def rnd_conc(mode, N, D):
             return tz + (1 if N >= 0 else -1)
         return tz
     raise ValueError(m)
+
+
+def check_vc_portfolio(constraints, goal, timeout_ms=600000, name="", seeds=(0, 1, 2), workdir="/verif/build/smt"):
+    """Decide a hard VC with a portfolio of z3 (5.x CLI) processes that differ in their random seed;
+    the first definitive answer wins.  Returns VCResult; 'sat' carries no model (callers re-query)."""
+    import os
+    import subprocess
+    import tempfile
+    t0 = time.time()
+    os.makedirs(workdir, exist_ok=True)
+    txt = smtlib(constraints, goal) + "\n(check-sat)\n"
+    fd, path = tempfile.mkstemp(suffix=".smt2", dir=workdir)
+    with os.fdopen(fd, "w") as f:
+        f.write("; %s\n" % name)
+        f.write(txt)
+    procs = []
+    for s in seeds:
+        cmd = ["z3-new", "smt.random_seed=%d" % s, "sat.random_seed=%d" % s, "-T:%d" % max(1, timeout_ms // 1000), path]
+        procs.append(subprocess.Popen(cmd, stdout=subprocess.PIPE, stderr=subprocess.STDOUT, universal_newlines=True))
+    status = "unknown"
+    try:
+        pending = list(procs)
+        while pending and time.time() - t0 < timeout_ms / 1000.0 + 5:
+            for p in list(pending):
+                rc = p.poll()
+                if rc is None:
+                    continue
+                pending.remove(p)
+                out = p.stdout.read()
+                first = out.strip().split("\n")[0] if out.strip() else ""
+                if "(error" in out:
+                    continue
+                if first in ("unsat", "sat"):
+                    status = first
+                    pending = []
+                    break
+            else:
+                time.sleep(0.2)
+                continue
+            break
+    finally:
+        for p in procs:
+            if p.poll() is None:
+                p.kill()
+        for p in procs:
+            try:
+                p.wait(timeout=5)
+            except Exception:
+                pass
+        try:
+            os.remove(path)
+        except OSError:
+            pass
+    return VCResult(status, None, time.time() - t0, name)
